@@ -55,7 +55,8 @@ def run(ctx):
     coq_cases, metas = [], []
     with bfsrun.Monitors() as mon:
         for _ in range(ctx.budget(60, 500)):
-            gd = P.gen_invertible_graph(rng, ctx.budget(300, 2500))
+            gd = (G.gen_repeated_closed(rng, ctx.budget(300, 2500)) if len(coq_cases) % 5 == 4 else G.gen_colliding_coset(rng, 800) if len(coq_cases) % 5 == 2
+                  else P.gen_invertible_graph(rng, ctx.budget(300, 2500)))
             cfgd = G.gen_config(rng, gd)
             graph = G.make_graph(gd, cfgd)
             layers, dist = G.ref_bfs(gd, [gd["central"]])
